@@ -110,11 +110,13 @@ template <class T> struct VectorBase
       position: the cell g_p receives the value of the LAST entry whose index is g_p (tracked by add(i, v)), else 0 */
    VectorBase<T>& operator=(const SVectorBase<T>& v)
    {
-      int n = dimen; T* d = val;
+      int n = dimen; T* d = val; int gp = v.gpos; const T* vv = v.vals;
+      T t = 0;
+      if(gp >= 0) t = vv[gp];
       if(n > 0)
       {
          __CPROVER_havoc_slice(d, (size_t)n * sizeof(T));
-         if(0 <= g_p && g_p < n) d[g_p] = (v.gpos >= 0 ? v.vals[v.gpos] : 0);
+         if(0 <= g_p && g_p < n) d[g_p] = t;
       }
       return *this;
    }
